@@ -181,3 +181,13 @@ Definition bounds_exact (c : coll) (b : rect64) : bool :=
             le64 (r64_minx b) (r64_minx r) && le64 (r64_miny b) (r64_miny r) &&
             le64 (r64_maxx r) (r64_maxx b) && le64 (r64_maxy r) (r64_maxy b)) sp
   end.
+
+(* ---- server totals (stats.go basicStats / extStats, metrics.go): plain sums over s.cols ---- *)
+Definition cols := list (bytes * coll).
+Definition srv_num_objects (cs : cols) : Z := zsum (fun kc => ccount (snd kc)) cs.
+Definition srv_num_strings (cs : cols) : Z := zsum (fun kc => cstring_count (snd kc)) cs.
+Definition srv_num_points (cs : cols) : Z := zsum (fun kc => cpoint_count (snd kc)) cs.
+Definition srv_in_memory_size (cs : cols) : Z := zsum (fun kc => ctotal_weight (snd kc)) cs.
+Definition srv_num_collections (cs : cols) : Z := Z.of_nat (length cs).
+(* the retrievable dataset of the whole server *)
+Definition all_objs (cs : cols) : list obj := flat_map (fun kc => scan_ids (snd kc)) cs.
